@@ -10,6 +10,7 @@ import (
 	"os"
 	"path/filepath"
 	"regexp"
+	"runtime"
 	"runtime/debug"
 	"runtime/pprof"
 	"sort"
@@ -68,7 +69,7 @@ func (c07) Rule() string {
 		"systematic: truncation at every offset of small GenBank/FASTA texts (LF and CRLF, single and two-record); every declared LOCUS length 0..n+70 plus n+-60, 10^9, 2^63-1, negative, for ORIGIN blocks of n in {0,1,10,59,60,61,120,133} residues as LF and CRLF; every byte of a minimal record overwritten by 6 values; every mutation operator 24x on each small base; the shapes the statement names (field names wider than the LOCUS indent, DBLINK values `X:`, an unreadable record followed by an intact one); extreme arity and nesting (16k-part joins/orders, 5k-deep complement(/join( nesting closed and unclosed, 16k selector clauses, 5k-deep regexp groups, 60 KiB numbers and quoted values, 32k FASTA records). " +
 		"seeded: 1..3 operators of {truncate, delete/duplicate/swap lines, overwrite a byte, shrink/grow an indent by 1-4, collapse spaces, drop a field value, rewrite the numbers of a line, rewrite the declared length (n+-1, n+-60, 0, 10^9, other), LF<->CRLF of the text or of one line, splice two records, remove `//`, duplicate the ORIGIN block} over the corpus seqio/testdata/*.gb, *.fasta, pBAT5.txt, records written with seqio.GenBank.String() (0..200 residues, 0..4 features, optional DBLINK/REFERENCE/COMMENT/CONTIG/extra fields), FASTA text and 2-3 record streams; raw random bytes; for the string entry points printed values and hand-written seeds under truncate/delete/substitute/insert over the entry point's alphabet, and raw bytes. " +
 		"oracle: no panic, no process death, every Scan loop ends within len(input)+2 iterations, Scan stays false after it returned false, a true Scan has a value with Len() == len(Bytes()) >= 0, <= 30 CPU-s per input (process CPU, best of two runs; a case that has not returned after 45 CPU-s kills the worker and is re-run alone by the parent); a yielded GenBank record whose consumed text has an ORIGIN block must have Len() == the declared LOCUS length == the residues present in that block (class inconsistent-record-accepted), judged only when the simple reader can tell the field structure (no unbalanced quote, escape, colon-less CONTIG or separator inside the consumed text). Whether a mutant is accepted or rejected is otherwise don't-care. " +
-		"non-trivial: a non-empty input; distinct: entry point + FNV-64 and length of the input bytes (the recipe is not part of the key). Also: 16 fields and sub-fields whose value is white space only (11 widths, LF/CRLF), and scaling probes for the lines of an unquoted qualifier value and for CONTIG lines that name no accession. Scaling probe for the complemented parts of a join; a truncated GenBank record followed by an intact FASTA record (and the other way round) must end in an error, not in the intact record alone."
+		"non-trivial: a non-empty input; distinct: entry point + FNV-64 and length of the input bytes (the recipe is not part of the key). Also: 16 fields and sub-fields whose value is white space only (11 widths, LF/CRLF), and scaling probes for the lines of an unquoted qualifier value and for CONTIG lines that name no accession. Scaling probe for the complemented parts of a join; a truncated GenBank record followed by an intact FASTA record (and the other way round) must end in an error, not in the intact record alone. REFERENCE sub-field sets with MEDLINE and PUBMED in both orders; scaling probes for two-part joins inside a join and for complemented points and ranges of a join (the latter attributed to the listed finding by an allocation witness)."
 }
 
 func (c07) Assumptions() []string {
@@ -152,8 +153,46 @@ func c07ScanOnce(in string) (panicked bool, val interface{}, site string, n int,
 	}
 }
 
+const (
+	c07KFMixedRun    = "join-of-complemented-points-and-ranges-quadratic"
+	c07MixedRunProbe = "complemented points and ranges of a join"
+)
+
+// c07MixedRun: join(complement(1..5),complement(8),complement(11..15),...).
+func c07MixedRun(n int) string {
+	var b strings.Builder
+	b.WriteString("join(")
+	for i := 0; i < n; i++ {
+		if i > 0 {
+			b.WriteString(",")
+		}
+		if i%2 == 0 {
+			fmt.Fprintf(&b, "complement(%d..%d)", 10*i+1, 10*i+5)
+		} else {
+			fmt.Fprintf(&b, "complement(%d)", 10*i+8)
+		}
+	}
+	b.WriteString(")")
+	return b.String()
+}
+
 func (c07) Findings() []fw.Finding {
 	return []fw.Finding{
+		{ID: c07KFMixedRun, What: "a join of n complemented parts that are not all ranges is merged pair by pair, every merge joining the members collected so far once more: quadratic time", Witness: func() (bool, string) {
+			// bytes allocated while reading (deterministic, unlike time): the
+			// pairwise merge copies the collected members for every part.
+			alloc := func(n int) float64 {
+				s := c07MixedRun(n)
+				var m1, m2 runtime.MemStats
+				runtime.GC()
+				runtime.ReadMemStats(&m1)
+				gts.AsLocation(s)
+				runtime.ReadMemStats(&m2)
+				return float64(m2.TotalAlloc - m1.TotalAlloc)
+			}
+			a1, a8 := alloc(500), alloc(4000)
+			return a8 > 20*a1, fmt.Sprintf("AsLocation of a join of 500 such parts allocates %.0f bytes, of 4000 parts %.0f bytes (linear would be 8x)", a1, a8)
+		}},
 		{ID: c07KFWide, What: "a top-level field name longer than the indent derived from the LOCUS line makes genbankFieldNameParser call strings.Repeat with a negative count", Witness: func() (bool, string) {
 			in := "LOCUS       X 0 bp DNA linear UNA 01-JAN-2020\nVERYLONGFIELDNAME x\n//\n"
 			p, val, site, n, _, err := c07ScanOnce(in)
@@ -1352,6 +1391,19 @@ func (s *c07State) scaling() {
 			b.WriteString(")")
 			return b.String()
 		}, 400, "location"},
+		{c07MixedRunProbe, func(n int) string { return c07MixedRun(n) }, 125, "location"},
+		{"two-part joins inside a join", func(n int) string {
+			var b strings.Builder
+			b.WriteString("join(")
+			for i := 0; i < n; i++ {
+				if i > 0 {
+					b.WriteString(",")
+				}
+				fmt.Fprintf(&b, "join(%d..%d,%d..%d)", 20*i+1, 20*i+5, 20*i+8, 20*i+12)
+			}
+			b.WriteString(")")
+			return b.String()
+		}, 1500, "location"},
 		{"records of a stream", func(n int) string {
 			return strings.Repeat(fmt.Sprintf(head, 4)+"ORIGIN      \n        1 acgt\n//\n", n)
 		}, 150, ""},
@@ -1467,6 +1519,10 @@ func (s *c07State) scaling() {
 		c.Note(fmt.Sprintf("scaling %s: %.3f CPU-s at n, %.3f CPU-s at 8n (%d read)", p.name, t1, t4, r4))
 		// what linear scaling predicts for 8n, and the excess over it.
 		lin := 8 * math.Max(t1, 0.002)
+		if t4-lin > 0.25 && t4 > 2.5*lin && p.name == c07MixedRunProbe && c.KFEnabled(c07KFMixedRun) {
+			c.Known(c07KFMixedRun, enc)
+			continue
+		}
 		if t4-lin > 0.25 && t4 > 2.5*lin {
 			c.Violate("superlinear-time:"+strings.NewReplacer(" ", "-", "(", "", ")", "").Replace(p.name), enc, "CPU time at 8n within 2.5x of eight times the CPU time at n (or an excess under 0.25 CPU-s)", fmt.Sprintf("%.3f CPU-s -> %.3f CPU-s", t1, t4))
 		}
@@ -1702,6 +1758,17 @@ func (s *c07State) systematic() {
 				}
 				s.sys(c07Case{entry: "scan", source: "named", recipe: fmt.Sprintf("field %q followed by %d bytes of white space %q and nothing else, crlf=%v", f, len(fill), fill, crlf), ops: []string{"drop-value"}, input: in})
 			}
+		}
+	}
+	// reference sub-fields of older records (MEDLINE with and without PUBMED,
+	// in either order), and sub-fields no reader knows.
+	for _, subs := range []string{"   MEDLINE   97002444\n", "   MEDLINE   97002444\n   PUBMED   8849441\n", "   PUBMED   8849441\n   MEDLINE   97002444\n", "  MEDLINE   97002444\n", "  AUTHORS   A,B.\n  MEDLINE   97002444\n", "  STANDARD  full automatic\n", "  MEDLINE\n"} {
+		for _, crlf := range []bool{false, true} {
+			in := []byte("LOCUS       X 4 bp DNA linear UNA 01-JAN-2020\nDEFINITION  d.\nREFERENCE   1  (bases 1 to 4)\n" + subs + "ORIGIN      \n        1 acgt\n//\n")
+			if crlf {
+				in = gen.C07ToCRLF(in)
+			}
+			s.sys(c07Case{entry: "scan", source: "named", recipe: fmt.Sprintf("REFERENCE sub-fields %q crlf=%v", subs, crlf), ops: []string{"swap-lines"}, input: in})
 		}
 	}
 	for _, v := range []string{"X:", "X: ", "X:Y", "X: Y", ":", "X", "", "X::", "BioProject:", "a:b:c:"} {
